@@ -20,6 +20,16 @@ CLAIMED = {
             "property-based testing (rapid): metamorphic relations (dominance, twins, permutation, scaling)", "Dominance is not judged on instances where float noise could decide a reference comparison (margin below 1e-9, counted)."),
     "C07": ("7 methods x all bias sequences of length 0..4 with a recording probe bias around every step; invariants over the recorded pipeline history (answered, values for every criterion, parameters cover criteria operationally, split unchanged, criteria change exactly as reported, untouched values bit-identical) and probed == un-probed response.",
             "property-based testing (rapid): pipeline-history invariants via probe bias", "The probe is a public-interface bias returning `current` unchanged; exp-overflow of the documented anchoring formula (alpha x |d| > 600) is outside the numeric domain and skipped (counted)."),
+    "C08": ("Generated bias lists (always-reporting biases and the probe as firing indicators, disabled entries with unknown names and garbage props, probabilities incl. 0, 1, near 0/1) with metamorphic oracles: shape/echo, disabled==absent byte-identical, non-firing entry replaceable/removable without effect, independence from the other entries, monotonicity in the probability, plus frequency batches over rapid-drawn seed ranges.",
+            "property-based testing (rapid): metamorphic relations + statistical frequency band", "Frequency: N = 2000 (quick) / 20000 (thorough) consecutive seeds per batch, acceptance band 6.5 sigma + 2."),
+    "C11": ("Reference tournament re-implemented from the statement; exact comparison (drop-out groups as sets, comparedWith and both scores, reachability of links) for fixed order and deterministic policies, existential over search orders with the current choice first and over coin sequences otherwise; near-tie values around the 1e-6 threshold.",
+            "property-based testing (rapid): reference-model oracle, existential over random choices", "The library's random stream is never replayed; random order / coin are handled by enumeration (<= 6 alternatives). The undefeated alternative's evaluation fields are unconstrained."),
+    "C12": ("Reference elimination walk over the reference level series; exact for fixed order and distinct weights, existential over alternative orders and tie-breaks of equal weights otherwise; survivors first and reporting no failed threshold, eliminated in reverse order with (level, criterion, threshold), chain links by reachability.",
+            "property-based testing (rapid): reference-model oracle, existential over random choices", "No order is claimed among survivors."),
+    "C13": ("Reference acceptance walk in search order (current choice first) over the reference level series; accepted entries in acceptance order with level index and full thresholds they really satisfy, leftovers with the index after the last level and the worst end of each range over all known alternatives.",
+            "property-based testing (rapid): reference-model oracle, existential over random choices", "No order is claimed among alternatives that met no level."),
+    "C14": ("The four generated level sources as wired in main.go are iterated to exhaustion on generated parameters (dyadic ones landing exactly on the bounds) and compared with the documented series (exact length, thresholds at fraction r of the declared/observed range, strictly monotone, finite, out-of-range rejected); the API level re-uses the C12/C13 oracles on series-only requests so that swapping the increasing/decreasing wiring is caught.",
+            "property-based testing (rapid): reference series oracle (component + API)", "Decreasing multiplied series generated with minValue >= 0.01 (length < 5000)."),
 }
 
 NOT_YET = "check not built yet in this session (work in progress; to be claimed)"
